@@ -805,6 +805,18 @@ def tune_in_place(obj, kind, which):
             a *= 1.25
             return "coeff_sets[%d] *= 1.25" % (which % len(cs))
         return None
+    if kind == "model" and which % 2 == 1:
+        # a map of the first kernel's feature list (kernels of one model may share one list
+        # object: the change then reaches all of them - in a reloaded model as in the original)
+        ks_ = list(getattr(obj, "kernels", None) or [])
+        fl_ = getattr(ks_[0], "feature_list", None) if ks_ else None
+        maps = list(getattr(fl_, "feat_list", None) or [])
+        for m in maps[(which // 2) % max(1, len(maps)) :] + maps:
+            keys = sorted(k for k, v in vars(m).items() if isinstance(v, float) and v == v and abs(v) > 1e-12 and abs(v) < 1e12)
+            if keys:
+                k = keys[(which // 7) % len(keys)]
+                setattr(m, k, getattr(m, k) * 1.25)
+                return "kernels[0].feature_list:%s.%s" % (type(m).__name__, k)
     if kind == "model":
         nl = getattr(getattr(obj, "settings", None), "normalizers", None)
         for m in list(getattr(nl, "_normalizers", None) or getattr(nl, "normalizers", None) or []):
@@ -822,13 +834,32 @@ def retuned_second_save(ck, obj, kind, fmt, desc, pseed, rp):
     """save - re-tune in place - save again: the second file must hold the object as it is now"""
     S = lambda w: site(kind, fmt, w)  # noqa: E731
     D = disc(desc)
+    which_ = derive("tune", json.dumps(desc, sort_keys=True)) % 64
+    # the object as it is saved now, loaded: it gets the same change as the original below
+    twin = None
+    p1 = ROOT + "/before_retuning" + EXT[fmt]
+    if ck.try_dump(obj, kind, fmt, p1)[0] == "ok":
+        st1, _i1, twin = ck.try_load(kind, fmt, p1, pseed)
+        if st1 != "ok":
+            twin = None
     try:
-        what = tune_in_place(obj, kind, derive("tune", json.dumps(desc, sort_keys=True)) % 64)
+        what = tune_in_place(obj, kind, which_)
         if what is None:
             return
         ref2 = EVAL[kind](obj, pseed) + "|" + type_sig(obj, kind)
     except Exception:
         return  # the re-tuned object is not a valid one: nothing to save
+    if twin is not None:
+        # a reloaded object is the same object for whatever is done to it next: which parts
+        # share one sub-object (one feature list for several kernels) is part of what it is
+        try:
+            what_t = tune_in_place(twin, kind, which_)
+            got_t = EVAL[kind](twin, pseed) + "|" + type_sig(twin, kind)
+        except Exception as e:
+            what_t, got_t = what, "raise:" + type(e).__name__
+        ck.stats["same_change_applied_to_loaded_twin"] += 1
+        if what_t != what or got_t != ref2:
+            ck.v("retune:%s:%s:loaded-object-reacts-differently-to-the-same-change" % (S("load"), D), "change %s (on the loaded object: %s)" % (what, what_t), rp)
     p2 = ROOT + "/retuned" + EXT[fmt]
     st, info = ck.try_dump(obj, kind, fmt, p2)
     if st != "ok":
